@@ -168,6 +168,16 @@ CHECKS = {
              "trace step by step against the spec's Draw action (distinctness, exact size per JoseDefs, epk on the recipient's curve, default p2c >= 1000) and "
              "checks at the end of each trace that no bit position was constant; corrupted copies of a trace must be rejected (binding demonstration).",
         note="Trusted: TLC, refimpl for CEK recovery. Unpredictability is not decided (a non-repeating non-cryptographic generator passes)."),
+    "C20": dict(
+        cat="model_checking", ref="DESIGN.md section 6 (C20)",
+        technique="TLA+ Shared spec (threads x operations on a shared key at access granularity) model-checked by TLC; deterministic line-granular scheduler explores one- and two-preemption schedules of operation pairs on the real code; TLC-simulated call histories vs isolation; stress",
+        text="Shared.tla decomposes ensure_kid / view building / kid reads / view iteration at their shared accesses; TLC verifies KidNeverLost, ReadersSeeKid "
+             "and NoFailure for 3 threads over all interleavings and refutes the rebind-the-view and iterate-the-shared-dict designs with counterexample "
+             "schedules. On the real code a deterministic scheduler (sys.settrace, one runnable thread, baton passing at source lines inside joserfc) runs "
+             "every pair of 15 operations on fresh shared objects under every one-preemption schedule (every line for pairs of cryptographic operations) plus "
+             "sampled two-preemption schedules; each call is compared with isolation, produced tokens are verified/decrypted by refimpl, IVs must differ and an "
+             "observed kid must stay. SharedSeq.tla histories are executed against fresh clones; 16-32 thread stress runs at a 1 microsecond switch interval.",
+        note="Trusted: TLC, CPython's GIL semantics at line granularity, refimpl. Bytecode-level and C-level races are not decided."),
 }
 
 NOT_YET = {}
